@@ -6,6 +6,7 @@ from .. import pk, gen, cmp, corpus
 from . import c01
 
 ID = 'C14'
+HORIZON_S = 1800   # one case = one input under all its transformations
 LEVEL = 'exploration'
 LEVEL_TEXT = ('For every input of the corpus (windows, cut-outs, docked pairs with ligands/ions, clusters, insertion-coded and '
               'blank-chain record streams) the default run fixes the set of reportable residues; then every subset of those '
